@@ -14,7 +14,7 @@ REQUIRED = ['spacing_bounds', 'fallback_iff', 'speed_guard', 'rate_bound', 'lins
             'linspace_ends', 'circ_arc_spacing', 'speed_source']
 RULE = ('stream sampling: real circ / arc_bend / sin_bridge (incl. explicit disp_x) / sin_bend / sin_comp / spline (incl. disp_x) / '
         'spline_bridge / linear under warp_flag on real Waveguide objects over random radius, offsets, speed (attribute or '
-        'per-call) and cmd_rate_max, with the ratio length/step log-uniform in [0.05, 2000] so that the fallback region and the '
+        'per-call) and cmd_rate_max (a quarter of the objects are used first — step read, a curve drawn — and then get their speed / rate reassigned), with the ratio length/step log-uniform in [0.05, 2000] so that the fallback region and the '
         '1..2 step region are hit; the number of points appended by each underlying call must equal the model\'s '
         'num_subdivisions (cases whose exact quotient is within 1e-9 of an integer are skipped and counted), and — judged on '
         'the real points alone — spacing = length/(n-1) must lie in (step, 2*step] unless length <= step (then n = 3); the '
@@ -52,8 +52,24 @@ def run(ctx):
                            'spline_bridge', 'linear_warp'])
         r = rng.choice([15.0, 30.0, 5.0, 50.0, 0.5])
         with core.quiet():
-            wg = Waveguide(speed=speed_attr, cmd_rate_max=rate, radius=r, warp_flag=(kind == 'linear_warp'))
-            wg.start([rng.choice([0.0, -2.0, 3.0]), rng.choice([0.0, 0.5]), 0.035])
+            hist = rng.random() < 0.25
+            if hist:
+                # a used object: built with other settings, its step evaluated (and sometimes a first curve drawn), then the speed
+                # and / or the command-rate limit reassigned — the measured call must follow the settings in force when it is made
+                sp0 = rng.choice([v for v in (20.0, 1.0, 5.0, 50.0, 0.3) if v != speed_attr])
+                rt0 = rng.choice([v for v in (1200, 100, 40, 10, 5000) if v != rate])
+                which = rng.choice(['speed', 'rate', 'both'])
+                wg = Waveguide(speed=sp0 if which != 'rate' else speed_attr, cmd_rate_max=rt0 if which != 'speed' else rate, radius=r,
+                               warp_flag=(kind == 'linear_warp'))
+                wg.start([rng.choice([0.0, -2.0, 3.0]), rng.choice([0.0, 0.5]), 0.035])
+                _ = wg.dl
+                if rng.random() < 0.5:
+                    wg.arc_bend(0.01)
+                wg.speed = speed_attr
+                wg.cmd_rate_max = rate
+            else:
+                wg = Waveguide(speed=speed_attr, cmd_rate_max=rate, radius=r, warp_flag=(kind == 'linear_warp'))
+                wg.start([rng.choice([0.0, -2.0, 3.0]), rng.choice([0.0, 0.5]), 0.035])
             n0 = wg._x.size
             segs = []  # (L, slice length expected count source)
             try:
@@ -117,11 +133,12 @@ def run(ctx):
             xs = np.array(wg._x[n0:], dtype=np.float64)
             ys = np.array(wg._y[n0:], dtype=np.float64)
             fs = np.array(wg._f[n0:], dtype=np.float64)
-        case = {'kind': kind, 'rate': rate, 'speed_attr': speed_attr, 'percall': percall, 'r': r, **meta}
+        case = {'kind': kind, 'rate': rate, 'speed_attr': speed_attr, 'percall': percall, 'r': r, 'used_before': hist, **meta}
         items.append((case, f, rate, segs, xs, ys, fs, raised))
         for L in segs:
             reqs.append({'op': 'c13.count', 'f': q(f), 'rate': q(rate), 'L': q(L)})
         ctx.count('sampling.kind', kind)
+        ctx.count('sampling.history', 'settings-reassigned-after-use' if hist else 'fresh')
     res = ctx.driver.ask(reqs)
     k = 0
     for (case, f, rate, segs, xs, ys, fs, raised) in items:
